@@ -26,7 +26,7 @@ C_LIGHT = 299792458.0
 
 def REQUIRED(tier):
     return ["kernel_direct", "filterbank_fold", "timeseries_fold", "pulse_train", "conservation_checks", "cell_count_checks", "gulp_identity_checks",
-            "regime:gulp<2*maxdelay", "regime:nbands_not_dividing", "regime:accel!=0", "regime:multi_block", "canary_audits", "regime:multi_file_input", "long_folds", "pulse_train_edge_bins", "regime:nbands>nchans", "regime:small_accel_long_fold", "subint_edge_folds"]
+            "regime:gulp<2*maxdelay", "regime:nbands_not_dividing", "regime:accel!=0", "regime:multi_block", "canary_audits", "regime:multi_file_input", "long_folds", "pulse_train_edge_bins", "regime:nbands>nchans", "regime:small_accel_long_fold", "subint_edge_folds", "regime:fold_after_a_failed_fold"]
 
 
 def cases(tier, seed):
@@ -251,6 +251,20 @@ def run_case(case, ctx):
     if md:
         gulps.append(max(1, md))  # < 2*maxdelay: the library must raise it
         ctx.count("regime:gulp<2*maxdelay")
+    if case["seed"] % 4 == 1 and N >= 40:
+        # an earlier fold of the same dimensions in this process failed part-way (an input with stray bytes after its last sample raises on the last read)
+        badp = os.path.join(dd if nfiles > 1 else os.path.dirname(paths[0]), "ragged.fil")
+        with open(paths[0], "rb") as fh:
+            rawb = fh.read()
+        with open(badp, "wb") as fh:
+            fh.write(rawb + b"\x07")
+        try:
+            with np.errstate(all="ignore"):
+                FilReader(badp).fold(period, dm, accel=accel, nbins=nbins, nints=nints, nbands=nbands, gulp=max(2 * md + 1, 17), quiet=True, description="v")
+        except Exception:  # noqa: BLE001
+            ctx.count("regime:fold_after_a_failed_fold")
+        finally:
+            os.unlink(badp)
     cubes = []
     for g in gulps:
         ctx.evaluated(); ctx.count("filterbank_fold")
